@@ -385,7 +385,7 @@ func init() {
 		Enumerate:   c11Enumerate,
 		Run:         c11Run,
 		CaseTimeout: 120 * time.Second,
-		Budget:      map[string]time.Duration{"quick": 170 * time.Second, "thorough": 40 * time.Minute},
+		Budget:      map[string]time.Duration{"quick": 400 * time.Second, "thorough": 40 * time.Minute},
 		Phases: []harn.Phase{
 			{Only: "sched/"},
 			{Only: "shim/", Exe: "check-sched"},
